@@ -1141,6 +1141,7 @@ class CommitHandler(processor.CommitHandler):
             with contextlib.suppress(KeyError):
                 del self.directory_entries[path]
             if self.basis_inventory.get_entry(ie.file_id).kind == "directory":
+                moved_away = []
                 for child_relpath, entry in self.basis_inventory.iter_entries_by_dir(
                     from_dir=ie.file_id
                 ):
@@ -1148,6 +1149,10 @@ class CommitHandler(processor.CommitHandler):
                     moved = self._delta_entries_by_fileid.get(entry.file_id)
                     if moved is not None and moved[1] not in (None, child_path):
                         # renamed away earlier in this commit
+                        moved_away.append(child_path + "/")
+                        continue
+                    if child_path.startswith(tuple(moved_away)):
+                        # ... together with its parent directory
                         continue
                     self._add_entry((child_path, None, entry.file_id, None))
                     self._paths_deleted_this_commit.add(child_path)
@@ -1175,7 +1180,9 @@ class CommitHandler(processor.CommitHandler):
         self._paths_deleted_this_commit.add(old_path)
         if new_ie.kind == "directory":
             self.directory_entries[new_path] = new_ie
-            self._renamed_dirs.append((self._basis_path(old_path), new_path))
+            # (old_path is a path of this commit's namespace at this point:
+            # _basis_path undoes the renames one by one, newest first.)
+            self._renamed_dirs.append((old_path, new_path))
 
     def _rename_pending_change(
         self, old_path: str, new_path: str, file_id: inventory.FileId
@@ -1196,7 +1203,15 @@ class CommitHandler(processor.CommitHandler):
 
         # Delete the old path. Note that this might trigger implicit
         # deletion of newly created parents that could now become empty.
-        self.record_delete(old_path, old_ie)
+        if old_ie.kind == "directory" and old_path not in self._new_file_ids:
+            # A directory of the basis inventory that is renamed a second
+            # time: only the entry moves on, its content follows it.
+            self._add_entry((old_path, None, file_id, None))
+            self._paths_deleted_this_commit.add(old_path)
+            self.directory_entries.pop(old_path, None)
+            self._renamed_dirs.append((old_path, new_path))
+        else:
+            self.record_delete(old_path, old_ie)
 
         # Update the dictionaries used for tracking new file-ids
         # (An entry of the basis inventory stays one: a later modification of
@@ -1220,6 +1235,8 @@ class CommitHandler(processor.CommitHandler):
             **_entry_kwargs(old_ie),
         )
         self.record_new(new_path, ie)
+        if ie.kind == "directory":
+            self.directory_entries[new_path] = ie
 
     def modify_handler(self, filecmd) -> None:
         """Handle a modify file command.
